@@ -126,7 +126,9 @@ def enum_a(col, max_size, max_len, part, nparts):
             idx += 1
             if idx % nparts != part:
                 continue
-            expr = P.to_expr(tree)
+            mode = P.MODES[(idx // nparts) % len(P.MODES)]
+            expr = P.to_expr(tree, *mode)
+            col.label(f"A:atoms:{mode[0]}")
             n = nt = 0
             with BuildMemo():
                 for s in seqs:
@@ -135,7 +137,7 @@ def enum_a(col, max_size, max_len, part, nparts):
                     nt += is_nt
                     res = check_tree_seq(tree, expr, s, m)
                     if res:
-                        col.fail({"kind": "tree", "tree": P.to_json(tree), "seq": "".join(s)}, res[0], res[1])
+                        col.fail({"kind": "tree", "tree": P.to_json(tree), "seq": "".join(s), "mode": list(mode)}, res[0], res[1])
                     elif is_nt and n % 1511 == 0:
                         col.sample({"pattern": P.show(tree), "seq": "".join(s)}, force=len(col.samples) < 3)
             col.bulk(n, nt)
@@ -148,11 +150,16 @@ def enum_family(col, part, nparts, max_len):
 
     m = _matcher()
     seqs = list(P.sequences(P.ATOMS, max_len))
-    fam = [t for t in P.nullable_repetition_family() if not R.nullable(R.norm(t))]
-    for i, tree in enumerate(fam):
+    fam = [(t, None) for t in P.nullable_repetition_family()] + [(t, (a, True)) for t in P.shared_family() for a in ("plain", "fresh", "one")]
+    fam = [(t, md) for t, md in fam if not R.nullable(R.norm(t))]
+    for i, (tree, mode) in enumerate(fam):
         if i % nparts != part:
             continue
-        expr = P.to_expr(tree)
+        if mode is None:
+            mode = P.MODES[(i // nparts) % len(P.MODES)]
+        else:
+            col.label("A:shared-operator-family")
+        expr = P.to_expr(tree, *mode)
         n = nt = 0
         with BuildMemo():
             for s in seqs:
@@ -161,18 +168,18 @@ def enum_family(col, part, nparts, max_len):
                 nt += is_nt
                 res = check_tree_seq(tree, expr, s, m)
                 if res:
-                    col.fail({"kind": "tree", "tree": P.to_json(tree), "seq": "".join(s)}, res[0], res[1])
+                    col.fail({"kind": "tree", "tree": P.to_json(tree), "seq": "".join(s), "mode": list(mode)}, res[0], res[1])
                     break
         col.bulk(n, nt)
     col.label("A:nullable-repetition-family")
 
 
 def gen_a(col, seed, n):
-    strat = st.tuples(P.tree_strategy(7), st.text(alphabet="abc", max_size=24)).filter(lambda v: not R.nullable(R.norm(v[0])))
+    strat = st.tuples(P.tree_strategy(7), st.text(alphabet="abc", max_size=24), st.sampled_from(P.MODES)).filter(lambda v: not R.nullable(R.norm(v[0])))
 
     def body(v):
-        tree, seq = v
-        col.eval({"kind": "tree", "tree": P.to_json(tree), "seq": seq}, nontrivial=nontrivial_a(tree, seq), labels=["C:random"])
+        tree, seq, mode = v
+        col.eval({"kind": "tree", "tree": P.to_json(tree), "seq": seq, "mode": list(mode)}, nontrivial=nontrivial_a(tree, seq), labels=["C:random"])
 
     run_given(body, strat, seed, n)
 
@@ -407,7 +414,7 @@ def run_case(case):
             return (f"{case['shape']}:missing-expression", "expression not passed to find_all")
         return check_shape_seq(case["language"], case["shape"], exprs[case["index"]], case["names"], m)
     tree = P.from_json(case["tree"])
-    return check_tree_seq(tree, P.to_expr(tree), list(case["seq"]), m)
+    return check_tree_seq(tree, P.to_expr(tree, *(case.get("mode") or ("plain", False))), list(case["seq"]), m)
 
 
 def shrink_candidates(case):
